@@ -180,7 +180,7 @@ MEMBER_CHOICES = ("absent", "plain", "pre", "post", "both")
 
 def hier_program(ids: Ids, rng, shape: List[List[int]], kind: str, is_async: bool, choices: Optional[List[str]] = None,
                  allow_reject: bool = False, inv_prob: float = 0.3, max_conj: int = 2, forms=None, errs=None,
-                 with_snaps: bool = True, avoid_mixed: bool = False, dbc_root: bool = True) -> Dict[str, Any]:
+                 with_snaps: bool = True, avoid_mixed: bool = False, dbc_root: bool = True, avoid_copy_shadow: bool = True) -> Dict[str, Any]:
     """One hierarchy (classes K<n>) with one member of the given kind declared/overridden per ``choices``."""
     from vkit.model import Model  # pylint: disable=import-outside-toplevel
 
@@ -222,6 +222,18 @@ def hier_program(ids: Ids, rng, shape: List[List[int]], kind: str, is_async: boo
                     if bo is not None:
                         flags.append(bool(model.eff_pre(bo, k2)))
                 mixed = bool(flags) and any(flags) and not all(flags)
+            if avoid_copy_shadow and rej is None:
+                # stay out of the corner where a class that only adds invariants holds a copy of an inherited member which
+                # hides a sibling's override in a join (known finding of C04): drop the invariants of the shadowing class
+                k2 = key if mkind not in ("pget", "pset", "pdel") else "{}.{}".format(base, mkind)
+                for _ in range(4):
+                    sh = model.copy_shadow(cname, k2)
+                    if sh is None:
+                        break
+                    for c in classes + [cls]:
+                        if c["name"] == sh:
+                            c["invs"] = []
+                    model = Model({"funcs": [], "classes": classes + [cls]})
             if (rej is None and not mixed) or (allow_reject and rej in ("TypeError", "ValueError") and not mixed):
                 break
             # downgrade the choice until the class is acceptable
